@@ -31,7 +31,7 @@ import (
 type SyncSpec struct {
 	Lookupds int      `json:"lookupds"`
 	Faults   []string `json:"faults"` // fault per connection attempt to lookupd 1 (then "ok"): ok | refuse | close | stall | garbage | neglen | minlen | overlimit | hugelen | trunc | einvalid | restart
-	Ops      []string `json:"ops"`    // churn: mk:T | mkch:T:C | rmch:T:C | rm:T | pub:T | mkeph | tick
+	Ops      []string `json:"ops"`    // churn: mk:T | mkch:T:C | rmch:T:C | rm:T | pub:T | mkeph | tick | cfg:<digits of the lookupds to configure, "-" for none>
 	PreKnown bool     `json:"preknown"` // lookupd already knows channel "pre" of topic "fresh" (from another nsqd)
 }
 
@@ -197,7 +197,7 @@ func RunSync(spec SyncSpec) vx.Out {
 		}
 	}()
 	w, err := NewWorld(FreshDir(), WOpts{MemQ: 100, Verbose: stdos.Getenv("C16_DEBUG") != "", Mod: func(o *Options) {
-		o.NSQLookupdTCPAddresses = addrs
+		o.NSQLookupdTCPAddresses = append([]string{}, addrs...) // a copy: json.Unmarshal in doConfig reuses the backing array
 		o.BroadcastAddress = "nsqd-under-test"
 	}})
 	if err != nil {
@@ -242,6 +242,10 @@ func RunSync(spec SyncSpec) vx.Out {
 	}
 	obs := ""
 	freshDone := false
+	configured := map[int]bool{}
+	for i := range lks {
+		configured[i] = true
+	}
 	for _, op := range spec.Ops {
 		p := strings.Split(op, ":")
 		switch p[0] {
@@ -276,6 +280,23 @@ func RunSync(spec SyncSpec) vx.Out {
 			}
 		case "tick":
 			w.SleepAlive(16*time.Second, cons)
+		case "cfg":
+			// runtime reconfiguration of the lookupd list (PUT /config/nsqlookupd_tcp_addresses)
+			configured = map[int]bool{}
+			list := []string{}
+			for _, d := range p[1] {
+				if i := int(d - '1'); i >= 0 && i < len(addrs) {
+					configured[i] = true
+					list = append(list, addrs[i])
+				}
+			}
+			body := "[\"" + strings.Join(list, "\",\"") + "\"]"
+			if len(list) == 0 {
+				body = "[]"
+			}
+			if code, _ := w.Do("PUT", "/config/nsqlookupd_tcp_addresses", []byte(body)); code != 200 {
+				bad("C16 runtime reconfiguration of the lookupd list refused", "%s: %d", body, code)
+			}
 		}
 		w.Quiesce()
 		alive("after " + op)
@@ -297,6 +318,9 @@ func RunSync(spec SyncSpec) vx.Out {
 	w.N.RUnlock()
 	sort.Strings(want)
 	for i, l := range lks {
+		if !configured[i] {
+			continue // no longer one of this nsqd's lookupds
+		}
 		got := l.KeysOf("nsqd-under-test")
 		if fmt.Sprint(got) != fmt.Sprint(want) {
 			bad("C16 nsqlookupd did not converge to nsqd's topics and channels", "lookupd %d lists %v for this nsqd; nsqd has %v", i+1, got, want)
